@@ -143,6 +143,7 @@ def run(ck):
     # ---------------- (a) exact tier --------------------------------------------------------------
     exact_cases = []
     names_exact = ["square", "sq2w", "honeycomb", "rect", "tria"]   # sq2w: two Wyckoff sets with unequal site data
+    if not ck.quick: names_exact += ["sc", "tet"]                   # 3-D: 124 states, 744 edges, 6 correctors
     for rep in range(ck.n(5, 12)):
         nm = names_exact[rep % len(names_exact)]
         crys, chem = gen.named(nm)
@@ -152,7 +153,7 @@ def run(ck):
         th = vm.random_thermo(d, rng, interact=True, dyadic=True)
         ec = exact_case(ck, d, th, vm.min_torus(d), nm)
         if ec is None: skipped["irrational-geometry"] += 1; continue
-        if ec["info"]["bits"] > 6000: skipped["too-large"] += 1; continue
+        if ec["info"]["bits"] > 8000: skipped["too-large"] += 1; continue
         exact_cases.append(ec)
     try:
         codes = netcase.run_cases(ck, "exact", [e["term"] for e in exact_cases], chunk=4)
